@@ -195,6 +195,41 @@ def gen_small(rng):
     return '\n'.join(lines) + '\n'
 
 
+def gen_arith(rng):
+    """data-processing style programs: several variables per expression (operands of + and * that are different names),
+    nested subscripts, method calls, accumulation loops, helper functions called from more than one place"""
+    vs = ['total', 'price', 'qty', 'tax', 'count', 'rate']
+    lines = ['%s = %d' % (v, rng.randint(1, 9)) for v in rng.sample(vs, 4)]
+    lines.append("report = {'Station': {'City': 'Chicago', 'Code': 7}, 'Data': {'Rain': 2}}")
+    lines.append('rows = [1, 2, 3]')
+    for _ in range(rng.randint(4, 9)):
+        r = rng.random()
+        a, b, c = rng.choice(vs), rng.choice(vs), rng.choice(vs)
+        if r < 0.18:
+            lines.append('%s = %s %s %s' % (a, b, rng.choice(['+', '*']), c))
+        elif r < 0.3:
+            lines.append('%s = %s * %s + %s' % (a, b, c, rng.choice(vs)))
+        elif r < 0.4:
+            lines.append('%s = (%s + %s) * (%s + %d)' % (a, b, c, rng.choice(vs), rng.randint(1, 3)))
+        elif r < 0.5:
+            lines.append("%s = report[%s][%s] %s %s" % (a, rng.choice(["'Station'", "'Data'"]), rng.choice(["'Code'", "'Rain'"]), rng.choice(['+', '*', '-']), b))
+        elif r < 0.58:
+            lines.append('print(%s + %s, %s * %s)' % (a, b, b, c))
+        elif r < 0.66:
+            lines.append('rows.append(%s + %s)' % (a, b))
+        elif r < 0.74:
+            lines.append('for row in rows:\n    %s = %s + row\n    print(row * %s)' % (a, a, b))
+        elif r < 0.8:
+            lines.append('%s += %s * %s' % (a, b, c))
+        elif r < 0.86:
+            lines.append('if %s + %s > %s * 2:\n    print(%s)\nelse:\n    %s = %s + 1' % (a, b, c, a, b, b))
+        elif r < 0.93:
+            lines.append('def scale(x, y):\n    return x * y + x\nprint(scale(%s, %s))\n%s = scale(%s, 2) + %s\n%s = 2 * scale(%s, %s)' % (a, b, c, a, b, a, c, b))
+        else:
+            lines.append('while %s < %s + %s:\n    %s = %s + 1' % (a, b, c, a, a))
+    return '\n'.join(lines) + '\n'
+
+
 def run(ctx):
     import os, sys
     sys.setrecursionlimit(20000)     # copy.deepcopy of syntax trees needs several frames per tree level
@@ -208,6 +243,7 @@ def run(ctx):
         p = gen_program(rng, static_only=(rng.random() < 0.4))
         check_program(ctx, rng, p.src, 'generated', 6)
         check_program(ctx, rng, gen_small(rng), 'small', 8)
+        check_program(ctx, rng, gen_arith(rng), 'arith', 6)
     files = corpus.corpus_files(max_bytes=ctx.pick(5000, 15000), repo=repo)
     mine = files[ctx.shard::ctx.nshards]
     rng.shuffle(mine)
